@@ -76,7 +76,7 @@ def _shard_input(b: Batch, part: list, extra: dict | None):
                     and not isinstance(holder[path[-1]], bool):
                 holder[path[-1]] = dref(holder[path[-1]])
         if "cases" in e:
-            e["cases"] = [dict(c, di=dref(c["di"])) for c in e["cases"]]
+            e["cases"] = [dict(c, di=dref(c["di"])) if "di" in c else c for c in e["cases"]]
         if "si" in e:
             if e["si"] not in smap:
                 slices.append(b.slices[e["si"] - 1])
